@@ -770,9 +770,11 @@ func barrageCase(c *h.Case, si *srvInfo, tr string) {
 			}
 			defer tp.Close()
 			for i := 0; i < n/workers; i++ {
-				conn, err := tp.NewStream()
-				if err != nil {
-					return
+				conn := tp.Ctl // the transport's first stream must not stay idle (see the stall cases)
+				if i > 0 {
+					if conn, err = tp.NewStream(); err != nil {
+						return
+					}
 				}
 				var b []byte
 				kindSel := r.Intn(3)
